@@ -23,6 +23,14 @@ CLAIMED.update({
          "C12_run_post: whenever run() returns, 1-beta < the regenerated tolerance (= double 1e-4), ESS >= n_total and evidence = Z(1) of the final history; C12_posterior_aligned: for all option combinations and any trimming/resampling routines returning as many weights as indices, all returned arrays have one length and each row is one history particle in x, logl, blobs and logw alike; weights normalised / uniform under resampling. Termination itself is not claimed.",
          "DESIGN.md §6 C12"),
 })
+CLAIMED.update({
+ "C06": ("Lean 4 proof at ℝ (incl. Lebesgue integrals over the offset) on the Sc-polymorphic model of systematic_resample and numpy's legacy choice + exact-dyadic (complete offset partition) and bit-exact Float correspondence",
+         "For every n, every weight vector and every offset: exactly n indices, all in range, non-decreasing (no assumption on the sum); the loop returns the least covering cell (spec lemma); with sum exactly 1 the closed-form count, the floor/ceil law and unbiasedness (indicator decomposition and integral = n*w_j); the renormalised and deficit cases stated precisely; multinomial cell law and its integral. Real systematic_resample / np.random.choice / Resampler.run / posterior(resample) are compared with the Rat model on the complete finite partition of the offset and bit-for-bit with the Float model.",
+         "DESIGN.md §6 C06"),
+ "C09": ("Lean 4 theorems about effect programs over an abstract generator + decide-obligations on the RNG effect table regenerated from source (AST translator G3) + dynamic call-site cross-check and exact seeded-run / no-reset observations",
+         "Programs without seeding are injective in the ambient generator state, a constant reseed forgets it, a run that first seeds with the user's random_state is a function of that seed alone; obligations decided on the regenerated table: no literal seed, no literal reaching a global seed through a constructor attribute, all seed arguments user-driven, no unknown RNG source, run seeds before its first draw. Dynamic twin: observed numpy.random call sites are a subset of the table; same random_state twice is bit-identical, different ones differ; after every library operation the global stream still depends on the ambient seed.",
+         "DESIGN.md §6 C09"),
+})
 NOT_YET = {}
 props = [json.loads(l) for l in open(os.path.join(HERE, "properties.jsonl"))]
 checks, na = [], []
